@@ -34,6 +34,12 @@ func (b Bound) text() string {
 		return fmt.Sprintf("last + %d", b.I)
 	case "str":
 		return `"a"`
+	case "litabs":
+		return "(-1).abs()" // a literal followed by a method: the method's result is the subscript
+	case "littype":
+		return "(2).type()"
+	case "litfloor":
+		return "(1.9).floor()"
 	case "max32":
 		return "2147483647"
 	case "min32":
@@ -153,6 +159,8 @@ func evalBound(b Bound, arr []any) (int64, bool) {
 		return n - 1 + b.I, true
 	case "guarded0", "guardedfail0":
 		return 0, true
+	case "litabs", "litfloor":
+		return 1, true
 	case "max32":
 		return math.MaxInt32, true
 	case "min32":
@@ -317,7 +325,7 @@ func subscriptBounds(full bool) []Bound {
 		Bound{Kind: "last"}, Bound{Kind: "lastminus", I: 1}, Bound{Kind: "lastminus", I: 2}, Bound{Kind: "lastplus", I: 1})
 	if full {
 		bs = append(bs, Bound{Kind: "str"}, Bound{Kind: "big"}, Bound{Kind: "negbig"}, Bound{Kind: "multi"}, Bound{Kind: "none"}, Bound{Kind: "null"}, Bound{Kind: "bool"},
-			Bound{Kind: "num", F: 2147483647.5}, Bound{Kind: "num", F: 2147483648.5}, Bound{Kind: "num", F: 1e300}, Bound{Kind: "inner_last"}, Bound{Kind: "inner_first"}, Bound{Kind: "guarded0"}, Bound{Kind: "arr1"}, Bound{Kind: "arr2"}, Bound{Kind: "nested1"}, Bound{Kind: "guardedfail0"}, Bound{Kind: "max32"}, Bound{Kind: "min32"})
+			Bound{Kind: "num", F: 2147483647.5}, Bound{Kind: "num", F: 2147483648.5}, Bound{Kind: "num", F: 1e300}, Bound{Kind: "inner_last"}, Bound{Kind: "inner_first"}, Bound{Kind: "guarded0"}, Bound{Kind: "arr1"}, Bound{Kind: "arr2"}, Bound{Kind: "nested1"}, Bound{Kind: "guardedfail0"}, Bound{Kind: "max32"}, Bound{Kind: "min32"}, Bound{Kind: "litabs"}, Bound{Kind: "littype"}, Bound{Kind: "litfloor"})
 		bs = append(bs, Bound{Kind: "var", F: -0.5}, Bound{Kind: "var", F: 1.9})
 	}
 	return bs
